@@ -394,4 +394,127 @@ Section Inv.
     - assert (f' = f) by lia. subst f'. split; [lia|exact B].
     - destruct (HF f' Hf') as [Hl' HB']. split; [exact Hl'|]. intros v Hv. rewrite O by lia. apply HB'. exact Hv.
   Qed.
+  (* ---------------------------------------------------------------- the window as a list *)
+
+  Definition ewin (row c : Z) : list Z :=
+    window_c (coords (e_rows e) (e_cols e)) (e_data e) (e_mask e) (e_R e) (e_a2 e) row c.
+
+  Lemma countb_filter {A} (p q : A -> bool) l : countb p (filter q l) = countb (fun x => q x && p x) l.
+  Proof.
+    induction l as [|a l IH]; [reflexivity|]. cbn [filter]. destruct (q a) eqn:E.
+    - rewrite !countb_cons, IH, E. reflexivity.
+    - rewrite countb_cons, IH, E. reflexivity.
+  Qed.
+
+  Lemma cnt_window q row c : cnt e (Soct e c row) q = countb q (ewin row c).
+  Proof.
+    unfold ewin, window_c, cnt. rewrite countb_map, countb_filter. apply countb_ext.
+    intros [y x] Hin. apply coords_In in Hin. unfold pixq, in_window, Soct, in_img. cbn [fst snd].
+    change (msk2 (e_mask e) y x) with (msk e y x). change (dat2 (e_data e) y x) with (dat e y x).
+    unfold MedianSlide.R, MedianSlide.a2.
+    destruct (0 <=? x) eqn:E1, (x <? e_cols e) eqn:E2, (0 <=? y) eqn:E3, (y <? e_rows e) eqn:E4; try lia. reflexivity.
+  Qed.
+
+  Lemma ewin_range row c : Forall (fun v => 0 <= v < 256) (ewin row c).
+  Proof.
+    apply Forall_forall. intros v Hv. unfold ewin, window_c in Hv. apply in_map_iff in Hv.
+    destruct Hv as [[y x] [E Hin]]. apply filter_In in Hin. destruct Hin as [Hc Hw]. apply coords_In in Hc.
+    unfold in_window in Hw. cbn [fst snd] in *. apply andb_true_iff in Hw. destruct Hw as [Hm _].
+    subst v. change (dat2 (e_data e) y x) with (dat e y x). apply HD. unfold in_img.
+    change (msk2 (e_mask e) y x) with (msk e y x) in Hm. rewrite Hm. lia.
+  Qed.
+
+  Lemma countb_lin {A} (p q r : A -> bool) l :
+    (forall x, (if p x then 1 else 0) = (if q x then 1 else 0) - (if r x then 1 else 0)) ->
+    countb p l = countb q l - countb r l.
+  Proof.
+    intros H. induction l as [|a l IH]; [reflexivity|]. rewrite !countb_cons, IH. specialize (H a). lia.
+  Qed.
+
+  Lemma cscan_range l : forall i a below, l <> [] ->
+    i <= fst (cscan l i a below) < i + Z.of_nat (length l).
+  Proof.
+    induction l as [|x r IH]; intros i a below Hne; [congruence|]. cbn [cscan length].
+    destruct (below <? a + x); [cbn [fst]; lia|]. destruct r as [|y r']; [cbn [fst length]; lia|].
+    specialize (IH (i + 1) (a + x) below ltac:(discriminate)). cbn [length] in *. lia.
+  Qed.
+
+  Hypothesis Hpct : 0 <= e_percent e <= 100.
+
+  (* ---------------------------------------------------------------- find_median at an image column *)
+  Theorem find_median_spec (s : st) (row c : Z) :
+    s_row s = row -> s_col s = c -> c <= e_cols e + e_R e - 1 ->
+    Slots s row c -> AccInv s row c -> FineInv s row c ->
+    let s' := fst (find_median e s) in let v := snd (find_median e s) in
+    Slots s' row c /\ AccInv s' row c /\ FineInv s' row c /\ s_row s' = row /\ s_col s' = c /\
+    (ewin row c <> [] ->
+     RankOf (ewin row c) (rank_pos (Z.of_nat (length (ewin row c))) (e_percent e)) v).
+  Proof.
+    intros Hrow Hcol Hcmax HS (HA & HN) HFi. cbv zeta.
+    set (vals := ewin row c).
+    assert (Hlen : hN e (Soct e c row) = Z.of_nat (length vals)).
+    { unfold hN. rewrite cnt_window. fold vals. unfold countb. f_equal. f_equal.
+      induction vals as [|a l IH]; [reflexivity|]. cbn [filter]. f_equal. exact IH. }
+    pose proof (HW c row) as Hsmall. rewrite Hlen in Hsmall.
+    assert (Hacc : s_accn s = Z.of_nat (length vals)) by (rewrite HN, Hlen; unfold M16, M32 in *; lia).
+    destruct (s_accn s =? 0) eqn:E0.
+    - (* empty window *)
+      unfold find_median. rewrite E0. cbn [fst snd].
+      split; [exact HS|]. split; [split; assumption|]. split; [exact HFi|]. split; [exact Hrow|]. split; [exact Hcol|].
+      intros Hne. destruct vals; [congruence|cbn [length] in Hacc; lia].
+    - assert (Hco : coarse (s_acc s) = coarse_of (hist_of vals)).
+      { destruct HA as [LA HA']. apply (nth_ext _ _ 0 0); [rewrite LA, coarse_length; reflexivity|].
+        intros n Hn. rewrite LA in Hn. specialize (HA' (Z.of_nat n) ltac:(lia)). unfold getz in HA'. rewrite Nat2Z.id in HA'.
+        rewrite HA'. rewrite coarse_nth by exact Hn. rewrite lsum_block by lia.
+        replace (16 * (Z.of_nat n + 1)) with (Z.of_nat (16 * n + 16)) by lia.
+        replace (16 * Z.of_nat n) with (Z.of_nat (16 * n)) by lia.
+        pose proof (ewin_range row c) as Hr. fold vals in Hr.
+        assert (Hr0 : Forall (fun v => 0 <= v) vals) by (eapply Forall_impl; [|exact Hr]; cbv beta; lia).
+        rewrite !hist_cum by (try exact Hr0; lia).
+        unfold hC. rewrite cnt_window. fold vals.
+        assert (Hle : countb (fun d => d / 16 =? Z.of_nat n) vals <= Z.of_nat (length vals)).
+        { unfold countb. pose proof (filter_length_le (fun d => d / 16 =? Z.of_nat n) (fun _ => true) vals ltac:(auto)) as X.
+          assert (length (filter (fun _ : Z => true) vals) = length vals) as Y.
+          { clear. induction vals as [|a l IH]; [reflexivity|]. cbn [filter length]. f_equal. exact IH. }
+          lia. }
+        pose proof (countb_nonneg (fun d => d / 16 =? Z.of_nat n) vals).
+        rewrite Z.mod_small by (unfold M16 in *; lia).
+        unfold count_lt. fold (countb (fun x => x <? Z.of_nat (16 * n + 16)) vals). fold (countb (fun x => x <? Z.of_nat (16 * n)) vals).
+        apply countb_lin. intros x.
+        destruct (x / 16 =? Z.of_nat n) eqn:A1, (x <? Z.of_nat (16 * n + 16)) eqn:A2, (x <? Z.of_nat (16 * n)) eqn:A3; lia. }
+      unfold find_median. rewrite E0. cbn [fst snd].
+      set (f := fm_block e s).
+      assert (Hf : 0 <= f < 16).
+      { unfold f, fm_block. destruct HA as [LA _].
+        pose proof (cscan_range (coarse (s_acc s)) 0 0 (fm_below (s_accn s) (e_percent e))) as X. rewrite LA in X.
+        apply X. intro E. rewrite E in LA. discriminate. }
+      destruct (update_fine_spec s row c f Hrow Hcol HS Hcmax HFi Hf) as (F' & B' & C' & A' & N' & R' & K').
+      set (s' := update_fine e s f) in *.
+      split; [unfold Slots, slot in *; rewrite C'; exact HS|].
+      split; [unfold AccInv; rewrite A', N'; split; assumption|].
+      split; [exact F'|]. split; [exact R'|]. split; [exact K'|].
+      intros Hne.
+      pose proof (find_median_model_rank e s vals (ewin_range row c) Hne Hsmall Hpct Hco Hacc) as FM.
+      unfold find_median in FM. rewrite E0 in FM. cbn [snd] in FM. apply FM. fold f. fold s'.
+      (* the selected fine block is up to date *)
+      destruct F' as (LF' & _ & _).
+      apply (nth_ext _ _ 0 0).
+      { unfold block16. rewrite !firstn_length, !skipn_length, LF', hist_length. reflexivity. }
+      intros m Hm. unfold block16 in Hm. rewrite firstn_length, skipn_length, LF' in Hm.
+      assert (Hm16 : (m < 16)%nat) by lia.
+      unfold block16. rewrite !nth_firstn_lt by exact Hm16. rewrite !nth_skipn_add.
+      set (j := (Z.to_nat (16 * f) + m)%nat).
+      assert (Hj : (j < 256)%nat) by (unfold j; lia).
+      rewrite hist_nth by exact Hj.
+      specialize (B' (Z.of_nat j) ltac:(unfold j; lia)). unfold getz in B'. rewrite Nat2Z.id in B'. rewrite B'.
+      unfold hF. rewrite cnt_window. fold vals. unfold count_eq.
+      fold (countb (Z.eqb (Z.of_nat j)) vals).
+      assert (Hle : countb (Z.eqb (Z.of_nat j)) vals <= Z.of_nat (length vals)).
+      { unfold countb. pose proof (filter_length_le (Z.eqb (Z.of_nat j)) (fun _ => true) vals ltac:(auto)) as X.
+        assert (length (filter (fun _ : Z => true) vals) = length vals) as Y.
+        { clear. induction vals as [|a l IH]; [reflexivity|]. cbn [filter length]. f_equal. exact IH. }
+        lia. }
+      pose proof (countb_nonneg (Z.eqb (Z.of_nat j)) vals).
+      apply Z.mod_small. unfold M16 in *. lia.
+  Qed.
 End Inv.
